@@ -2,7 +2,10 @@
    the physical lines of Python's tokenizer, and the removal of comment lines.
 
      def comment_lines(s):
-         return "".join('# ' + l + '\n' for l in (s.splitlines() or ['']))
+         return "".join('# ' + l + '\n' for l in (s.replace('\0','\\0').splitlines() or ['']))
+
+   (D23: a NUL character is written as backslash-zero - Python refuses source text that contains a
+   NUL even inside a comment.)
 
    Every debug message of the compiler (YPPrologVisitor._debug, YPPrologCompiler._debug, the
    `# from <file>` line of YPPythonCodeGenerator.generate) goes through this function before it is
@@ -46,7 +49,14 @@ Definition lines_or_empty (s : str) : list str :=
 (* '# ' + l + '\n' *)
 Definition comment_line (l : str) : str := 35 :: 32 :: l ++ [10].
 
-Definition comment_lines (s : str) : str := concat (map comment_line (lines_or_empty s)).
+(* s.replace('\0','\\0') *)
+Fixpoint escape_nul (s : str) : str :=
+  match s with
+  | [] => []
+  | c :: r => if c =? 0 then 92 :: 48 :: escape_nul r else c :: escape_nul r
+  end.
+
+Definition comment_lines (s : str) : str := concat (map comment_line (lines_or_empty (escape_nul s))).
 
 (* ------------------------------------------------------------------ *)
 (* Physical lines of a Python source text as the tokenizer sees them: a line ends after \n, after
@@ -212,8 +222,40 @@ Qed.
 
 (* the physical lines of comment_lines msg are exactly the `# <line>\n` of the message's lines *)
 Lemma plines_comment_lines msg :
-  plines (comment_lines msg) = map comment_line (lines_or_empty msg).
+  plines (comment_lines msg) = map comment_line (lines_or_empty (escape_nul msg)).
 Proof. apply plines_comment_block, lines_or_empty_nobreak. Qed.
+
+(* the lines of a text are made of characters of the text *)
+Lemma sl_Forall (P : N -> Prop) : forall s b, Forall P s -> Forall (Forall P) (sl b s).
+Proof.
+  induction s as [|c r IH]; intros b H; cbn [sl]; [constructor|].
+  inversion H as [|? ? Hc Hr]; subst.
+  destruct (b && (c =? 10)); [apply IH; exact Hr|].
+  destruct (c =? 13); [constructor; [constructor|apply IH; exact Hr]|].
+  destruct (is_break c); [constructor; [constructor|apply IH; exact Hr]|].
+  specialize (IH false Hr). destruct (sl false r) as [|l ls].
+  - repeat constructor; exact Hc.
+  - inversion IH; subst. constructor; [constructor; assumption|assumption].
+Qed.
+
+Lemma lines_or_empty_Forall (P : N -> Prop) s : Forall P s -> Forall (Forall P) (lines_or_empty s).
+Proof.
+  intros H. unfold lines_or_empty, splitlines. pose proof (sl_Forall P s false H) as H1.
+  destruct (sl false s); [repeat constructor|exact H1].
+Qed.
+
+Lemma escape_nul_no_nul s : Forall (fun c => c <> 0) (escape_nul s).
+Proof.
+  induction s as [|c r IH]; cbn [escape_nul]; [constructor|].
+  destruct (N.eqb_spec c 0) as [->|Hn]; repeat constructor; try discriminate; assumption.
+Qed.
+
+(* a text without NUL is left alone *)
+Lemma escape_nul_id s : Forall (fun c => c <> 0) s -> escape_nul s = s.
+Proof.
+  induction 1 as [|c r Hc Hr IH]; [reflexivity|]. cbn [escape_nul].
+  destruct (N.eqb_spec c 0); [contradiction|rewrite IH; reflexivity].
+Qed.
 
 Lemma comment_lines_nl_term msg : nl_term (comment_lines msg).
 Proof.
@@ -232,17 +274,45 @@ Theorem comment_every_line : forall msg,
 Proof.
   intros msg. rewrite plines_comment_lines. split; [|split].
   - apply Forall_forall. intros x Hx. apply in_map_iff in Hx. destruct Hx as [l [<- _]]. reflexivity.
-  - pose proof (lines_or_empty_nonempty msg) as H. destruct (lines_or_empty msg); [congruence|discriminate].
+  - pose proof (lines_or_empty_nonempty (escape_nul msg)) as H. destruct (lines_or_empty (escape_nul msg)); [congruence|discriminate].
   - destruct (comment_lines_nl_term msg) as [E|[t E]]; [|exists t; exact E].
     exfalso. unfold comment_lines in E.
-    pose proof (lines_or_empty_nonempty msg) as H. destruct (lines_or_empty msg); [congruence|discriminate].
+    pose proof (lines_or_empty_nonempty (escape_nul msg)) as H. destruct (lines_or_empty (escape_nul msg)); [congruence|discriminate].
 Qed.
 
-(* what the comment says is the message: one comment line per line of the message, in order *)
+(* what the comment says is the message (NUL written as \0): one comment line per line of the
+   message, in order *)
 Theorem comment_lines_content : forall msg,
-  plines (comment_lines msg) = map (fun l => 35 :: 32 :: l ++ [10]) (lines_or_empty msg)
-  /\ Forall nobreak (lines_or_empty msg).
+  plines (comment_lines msg) = map (fun l => 35 :: 32 :: l ++ [10]) (lines_or_empty (escape_nul msg))
+  /\ Forall nobreak (lines_or_empty (escape_nul msg)).
 Proof. intros msg; split; [apply plines_comment_lines|apply lines_or_empty_nobreak]. Qed.
+
+(* C19/D23: every line of a commented debug message is a comment line AS PYTHON READS LINES:
+   `# `, then characters none of which is NUL, CR, LF (or any other str.splitlines boundary), then
+   the line feed that ends it.  So nothing in the message can end the comment early, and the text
+   contains no NUL (which Python 3.12 refuses anywhere in source text). *)
+Definition comment_char (c : N) : Prop := c <> 0 /\ c <> 10 /\ c <> 13 /\ is_break c = false.
+
+Theorem comment_lines_clean : forall msg,
+  Forall (fun l => exists body, l = 35 :: 32 :: body ++ [10] /\ Forall comment_char body) (plines (comment_lines msg))
+  /\ Forall (fun c => c <> 0) (comment_lines msg).
+Proof.
+  intros msg.
+  assert (HL : Forall (fun l => Forall comment_char l) (lines_or_empty (escape_nul msg))).
+  { pose proof (lines_or_empty_nobreak (escape_nul msg)) as H1.
+    pose proof (lines_or_empty_Forall _ _ (escape_nul_no_nul msg)) as H2.
+    rewrite Forall_forall in *. intros l Hl. specialize (H1 l Hl). specialize (H2 l Hl).
+    unfold nobreak in H1. rewrite Forall_forall in *. intros c Hc. specialize (H1 c Hc). specialize (H2 c Hc).
+    destruct (is_break_false _ H1) as [E10 E13]. apply N.eqb_neq in E10, E13.
+    unfold comment_char. auto. }
+  split.
+  - rewrite plines_comment_lines. apply Forall_forall. intros x Hx. apply in_map_iff in Hx.
+    destruct Hx as [l [<- Hl]]. exists l. split; [reflexivity|]. rewrite Forall_forall in HL. apply HL. exact Hl.
+  - unfold comment_lines. apply Forall_concat. apply Forall_forall. intros x Hx. apply in_map_iff in Hx.
+    destruct Hx as [l [<- Hl]]. unfold comment_line.
+    constructor; [discriminate|]. constructor; [discriminate|]. apply Forall_app. split; [|repeat constructor; discriminate].
+    rewrite Forall_forall in HL. specialize (HL l Hl). eapply Forall_impl; [|exact HL]. intros c [H _]. exact H.
+Qed.
 
 (* ------------------------------------------------------------------ *)
 (* strip *)
@@ -291,6 +361,8 @@ Proof. reflexivity. Qed.
 Example splitlines_ex2 : splitlines (d "\10;\10;") = [[]; []] /\ splitlines [] = [] /\ splitlines (d "\13;\13;\10;x") = [[]; []; d "x"].
 Proof. repeat split. Qed.
 Example comment_lines_ex1 : comment_lines [] = d "# \10;".
+Proof. reflexivity. Qed.
+Example comment_lines_ex3 : comment_lines (d "a\0;b\0;") = d "# a\92;0b\92;0\10;".
 Proof. reflexivity. Qed.
 Example comment_lines_ex2 : comment_lines (d "x\10;import os\13;y") = d "# x\10;# import os\10;# y\10;".
 Proof. reflexivity. Qed.
